@@ -90,15 +90,27 @@ func c09RunDFeed(c c09DFeedCase) (sig, msg, depth string) {
 		}
 	}
 	var hsErr error
-	p := vfRecover(func() {
-		hsErr = cn.Handshake()
-		buf := make([]byte, 4096)
-		for i := 0; i < 100000; i++ {
-			if _, err := cn.Read(buf); err != nil {
-				break
+	var p string
+	done := make(chan struct{})
+	go func() {
+		defer close(done)
+		p = vfRecover(func() {
+			hsErr = cn.Handshake()
+			buf := make([]byte, 4096)
+			for i := 0; i < 100000; i++ {
+				if _, err := cn.Read(buf); err != nil {
+					break
+				}
 			}
-		}
-	})
+		})
+	}()
+	// the transport never blocks and the input is a handful of datagrams: a run takes milliseconds.
+	// An endpoint that has not finished after 30 s is spinning or stuck on input it does not consume.
+	select {
+	case <-done:
+	case <-time.After(30 * time.Second):
+		return "spin-or-hang", "the endpoint neither finished nor failed within 30 s on a transport that never blocks: it loops without consuming input", ""
+	}
 	if p != "" {
 		return "panic", p, ""
 	}
